@@ -170,6 +170,10 @@ def schema_ast(draw, max_packages=3, services=True, markers=True):
                  "comment": draw(st.sampled_from(["", "", "", "field comment", 'say "hi"', "path C:\\dir\\"]))}
             if label == "map":
                 f["key"] = draw(st.sampled_from(KEY_TYPES))
+                if kind == "wkt" and t.endswith("Value"):
+                    # map<_, wrapper> is excluded by construction (known finding of the runtime: the synthetic entry class
+                    # does not know the value is a wrapper; probed separately by C01)
+                    f["kind"], f["type"] = "wkt", "google.protobuf.Timestamp"
             if label == "oneof":
                 f["oneof"] = draw(st.sampled_from(oneofs))
             m["fields"].append(f)
